@@ -47,6 +47,7 @@ def main():
     key = hashlib.sha1(os.path.realpath(wt).encode()).hexdigest()[:10]
     bdir = os.path.join(ROOT, '.build', key)
     rc = 0
+    cleanup = []
     try:
         if revert:
             p = subprocess.run(['git', '-C', wt, 'revert', '--no-commit', revert], capture_output=True, text=True)
@@ -81,6 +82,20 @@ def main():
                 e2.pop('VERIF_REPO', None)
                 q = subprocess.run(['bash', demo, b], cwd=wt, env=e2, capture_output=True, text=True)
                 res.append(q.returncode)
+            if res[0] == res[1]:
+                # some demonstrations take the path of a worktree (using <worktree>/target/release/ska) instead of a binary
+                res = []
+                clean = '/tmp/skaclean-%d' % os.getpid()
+                subprocess.run(['git', '-C', '/repo', 'worktree', 'add', '-q', '--detach', clean, 'HEAD'], check=True)
+                shutil.copy('/repo/Cargo.lock', os.path.join(clean, 'Cargo.lock'))
+                subprocess.run(['cp', '-r', '--reflink=auto', '/repo/target', os.path.join(clean, 'target')], check=True)
+                subprocess.run(['cargo', 'build', '--release', '--offline'], cwd=clean, env=env, capture_output=True, text=True)
+                cleanup.append(clean)
+                for root in (wt, clean):
+                    e2 = dict(env, SKA=os.path.join(root, 'target', 'release', 'ska'))
+                    e2.pop('VERIF_REPO', None)
+                    q = subprocess.run(['bash', demo, root], cwd=wt, env=e2, capture_output=True, text=True)
+                    res.append(q.returncode)
             print('DEMO %s: mutated exit=%d unmodified exit=%d -> %s' % (tag, res[0], res[1], 'confirmed' if res[0] != 0 and res[1] == 0 else 'NOT CONFIRMED'))
         for pid in ids:
             t0 = time.time()
@@ -96,6 +111,8 @@ def main():
             if p.returncode not in (0, 1, 2):
                 print(p.stdout[-500:], p.stderr[-500:])
     finally:
+        for c in cleanup:
+            subprocess.run(['git', '-C', '/repo', 'worktree', 'remove', '--force', c])
         if not keep:
             subprocess.run(['git', '-C', '/repo', 'worktree', 'remove', '--force', wt])
             shutil.rmtree(bdir, ignore_errors=True)
